@@ -275,6 +275,11 @@ def struct_rules(ctx, item):
             det = got
             want = {'Copy': 'copyable', 'Clone': 'cloneable', 'Default': 'defaultable'}
             okd = len(got) == 3 and all(nm in want and want[nm] in cs and cs.endswith('=True') for nm, cs in got) and sorted(nm for nm, _ in got) == ['Clone', 'Copy', 'Default']
+            if m.re.pattern.startswith('^\\s*ALT'):
+                # the attribute is left out exactly when the list is empty (the first alternative is the empty one)
+                labs_ = item.alts[int(m.group(1))][1]
+                okd = okd and len(labs_) == 2 and re.search(r'(^|::)is_empty\(', labs_[0]) is not None and labs_[0].endswith('=True')
+                det = '%s; empty when %s' % (det, labs_[0][:60])
     ctx.ob(['C17', 'C13'], 'R-TMPL', 'struct|derives', okd, 'derive list = Copy iff copyable, Clone iff cloneable, Default iff defaultable, comma separated; no attribute when empty: %s' % det, where)
     # header: docs vis struct name
     m = re.search(DOCS + ' ' + VIS + r' struct ' + H + r' \{ REP(\d+)\( ⟨E\d+:' + DOCS + ' ' + VIS + ' ' + H + ' : ' + H + r'⟩ \),\* \}', s)
@@ -312,7 +317,8 @@ def struct_rules(ctx, item):
     det = 'no size check of the expected shape'
     if m:
         o, hf, h1, hn, h2 = m.groups()
-        cond = show(item.opts[int(o)][1])
+        from guards import canon_pred
+        cond = show(canon_pred(item.opts[int(o)][1]))
         p1, p2, pn = item.hp(h1), item.hp(h2), item.hp(hn)
         det = 'cond %s sizes %s %s type %s' % (cond[:80], p1[0], p2[0], pn[0])
         oks = p1[0] is not None and p1[0] == p2[0] and p1[0].endswith('resolved().size') and pn[0] is not None and pn[0].endswith('path.last()') and \
@@ -527,8 +533,10 @@ def enum_rules(ctx, item):
     if m:
         o, hf, h1, hn, h2 = m.groups()
         p1, p2 = item.hp(h1), item.hp(h2)
-        oks = p1[0] is not None and p1[0] == p2[0] and p1[0].endswith('resolved().size')
-    ctx.ob(['C02', 'C08'], 'R-TMPL', 'enum|size-check', oks, 'the enum size check uses the resolved size of this very item', where)
+        from guards import canon_pred
+        cond = show(canon_pred(item.opts[int(o)][1]))
+        oks = p1[0] is not None and p1[0] == p2[0] and p1[0].endswith('resolved().size') and re.match(r'^(Gt|Ne)\(.*resolved.*\.size, 0\)$', cond) is not None
+    ctx.ob(['C02', 'C08'], 'R-TMPL', 'enum|size-check', oks, 'the enum size check is emitted for size > 0 and uses the resolved size of this very item', where)
     m = re.search(r'OPT(\d+)\[ impl ' + H + r' \{ ' + VIS + r' unsafe fn get \(  \) -> Self \{ unsafe \{ \* \( ' + H + r' as \* const Self \) \} \} \} \]', s)
     okg = False
     det = 'no enum singleton accessor of the expected shape'
@@ -738,15 +746,24 @@ def fn_rules(ctx, fn):
         sw = [s_ for s_ in flt.switches()]
         vals = [(x['expr'], x['block']) for x in flt.exits()]
         det = 'switches %s values %s' % ([show(s_['cond']) for s_ in sw], [show(v) for v, _ in vals])
-        okf = len(sw) == 1 and (show(sw[0]['cond']) in ('Not(upvar0)', 'upvar0')) and any(v == ('int', 1, 'bool') for v, _ in vals) and any(v[0] == 'un' and v[1] == 'Not' and is_call_(v[2], 'Argument::is_self') for v, _ in vals)
-        if not okf:
-            # any other spelling of the same truth table (`!(is_field && a.is_self())`, ..): kept = not (field body and receiver)
-            from r_access import table
-            tt = table(P, flt, [(r'^upvar0$', None), (r'Argument::is_self', None)], [(a_, b_) for a_ in (True, False) for b_ in (True, False)])
-            okf = all(tt.get((a_, b_)) is (not (a_ and b_)) for a_ in (True, False) for b_ in (True, False))
-            det += ' table %s' % {k_: v_ for k_, v_ in tt.items()}
+        # decided by the truth table of the predicate over (field body?, receiver?): kept = not (field body and receiver) — whatever
+        # the spelling (`!f || !s`, `!(f && s)`, an if-chain); a shape test alone cannot tell `!f || !s` from `f || !s`
+        from r_access import table
+        tt = table(P, flt, [(r'^upvar0$', None), (r'Argument::is_self', None)], [(a_, b_) for a_ in (True, False) for b_ in (True, False)])
+        okf = all(tt.get((a_, b_)) is (not (a_ and b_)) for a_ in (True, False) for b_ in (True, False))
+        det += ' table %s' % {k_: v_ for k_, v_ in tt.items()}
         cap = [c_ for c_ in fn.f.calls(lambda r_: r_['path'] and r_['path'].endswith('FunctionBody::is_field'))]
         okf = okf and len(cap) == 1
+        # and the captured flag is `body.is_field()` itself (not its negation, not something else)
+        cap0 = None
+        for bi_ in fn.f.normal_blocks():
+            for st_ in fn.f.blocks[bi_]['stmts']:
+                if st_['k'] == 'Assign' and st_['rv']['k'] == 'Aggregate' and st_['rv'].get('closure_id') == flt.id and st_['rv']['ops']:
+                    cap0 = strip(expand(fn.f, fn.f.expr_of_operand(st_['rv']['ops'][0])))
+        while cap0 is not None and cap0[0] in ('ref', 'deref'):
+            cap0 = strip(cap0[1])
+        okf = okf and cap0 is not None and is_call_(cap0, 'FunctionBody::is_field')
+        det += ' flag %s' % (show(cap0)[:50] if cap0 is not None else None)
     isf = [x for x in P.fns.values() if x.id.endswith('FunctionBody::is_field')]
     okis = False
     if isf:
@@ -872,6 +889,25 @@ def type_printer(ctx):
         doms = [show(norm_edge(s, lab)) for s in f.switches() for lab, tgt in s['edges'] if f.dominates(tgt, e[3]) and f.pred(tgt) == [s['block']] and s is not sw[0] and not (s['cond'][0] == 'discr' and 'branch' in show(s['cond']))]
         conds[e[1]] = doms
     okc = okr and any('Gt(ItemPath::len' in d and ', 1)' in d for d in conds.get('crate::', [])) and any('void' in d for d in conds.get('::std::ffi::c_void', []))
+    # exactly: c_void under (one segment AND that segment is `void`); `crate::` under (more than one segment) and nothing else
+    from guards import cmp_parts as _cp
+    pre = {}
+    for e in raw:
+        if e[0] == 'w':
+            pre[e[1]] = [norm_edge(s, lab) for s in f.switches() for lab, tgt in s['edges'] if f.dominates(tgt, e[3]) and f.pred(tgt) == [s['block']] and s is not sw[0]
+                         and not (s['cond'][0] == 'discr' and 'branch' in show(s['cond']))]
+    is_len = lambda p_, op, k: bool(_cp(p_)) and _cp(p_)[0] == op and is_call_(strip(_cp(p_)[1]), 'ItemPath::len') and strip(_cp(p_)[2])[:2] == ('int', k)
+
+    def is_void(p_):
+        # last segment == "void": `path.last() == Some(&"void".into())`, or `Some(seg)` with `seg.as_str() == "void"`
+        if p_[0] == 'call' and re.search(r'::eq$', p_[1]) and (find_calls_(p_, 'ItemPath::last') or any(isinstance(y, tuple) and y[0] == 'payload' for y in walk(p_))) and ('str', 'void') in list(walk(p_)):
+            return True
+        return False
+    pv = [p_ for p_ in pre.get('::std::ffi::c_void', []) if not (p_[0] in ('is_some', 'variant') or (p_[0] == 'discr'))]
+    pc = [p_ for p_ in pre.get('crate::', []) if not (p_[0] in ('is_some', 'variant'))]
+    okx = len(pv) == 2 and any(is_len(p_, 'Eq', 1) for p_ in pv) and any(is_void(p_) for p_ in pv) and len(pc) >= 1 and is_len(pc[-1], 'Gt', 1) and \
+        all(is_len(p_, 'Gt', 1) or is_len(p_, 'Ne', 1) or (p_[0] == 'un' and p_[1] == 'Not') or p_[0] == 'is_none' for p_ in pc)
+    okc = okc and okx
     disp = [e for e in raw if e[0] == 'w' and e[1] == '{}']
     okd = bool(disp) and any(isinstance(x, tuple) and x[0] == 'payload' and x[2] == 'Raw' for x in walk(disp[0][2]))
     ctx.ob(['C11', 'C13', 'C19'], 'R-TMPL', 'TYPE|raw-path', okc and okd,
